@@ -80,7 +80,7 @@ theorem WFW.setFile_nohandle {w : World} (hw : WFW w) (fi : Nat) (hfi : fi < w.f
     have hold := hw.handles h a ha
     have hne := hno h a ha
     have hf : (w.setFile fi f').file a.file = w.file a.file := file_setFile_ne w fi _ _ hne
-    exact hold.transfer (by rw [hf]) (by rw [hf]) (by rw [hf])
+    exact hold.transfer (by rw [hf]) (by rw [hf]) (by rw [hf]; exact id)
 
 theorem abs_setFile_nohandle {w : World} (fi : Nat) (hfi : fi < w.files.length) (f' : File) (hno : NoHandleIn w fi)
     (hpres : f'.present = (w.file fi).present) (hel : ∀ t r, f'.elem t r = (w.file fi).elem t r) :
@@ -329,7 +329,7 @@ theorem padW_ok (w : World) (hw : WFW w) (fi : Nat) : WFW (padW w fi) ∧ (abs w
     intro h a ha
     rw [padW_acc] at ha
     have := hw.handles h a ha
-    exact this.transfer (by rw [padW_file]) (by rw [padW_file]) (by rw [padW_file])
+    exact this.transfer (by rw [padW_file]) (by rw [padW_file]) (by rw [padW_file]; exact id)
   · refine ⟨fun j => by show (w.file j).present = ((padW w fi).file j).present; rw [padW_file],
       fun j k _ => by show (w.file j).elem k.1 k.2 = ((padW w fi).file j).elem k.1 k.2; rw [padW_file], ?_⟩
     intro h
